@@ -241,7 +241,15 @@ func writeCompoundOpInfix(w io.Writer, c Compound, opts *WriteOptions, env *Env,
 func writeCompoundFunctionalNotation(w io.Writer, c Compound, opts *WriteOptions, env *Env) error {
 	ew := errWriter{w: w}
 	opts = opts.withRight(operator{})
-	_ = c.Functor().WriteTerm(&ew, opts, env)
+	if f := c.Functor(); opts.ops.defined(f) {
+		// An operator as a functor isn't an operand: it mustn't be bracketed.
+		if opts.left != (operator{}) {
+			_, _ = fmt.Fprint(&ew, " ")
+		}
+		_ = f.WriteTerm(&ew, opts.withLeft(operator{}), env)
+	} else {
+		_ = f.WriteTerm(&ew, opts, env)
+	}
 	_, _ = fmt.Fprint(&ew, "(")
 	opts = opts.withLeft(operator{}).withPriority(999)
 	opts.maxDepth--
